@@ -1,5 +1,5 @@
 # replay of a bounded stand-in violation (C13): re-run native/c13_tdm.py
 import sys
-print('delays=[1, 2], leading identity bins per loop=[3, 2]: get_crop_value() = 3, in the hand-written loop the first 2 detected pulses are vacuum and pulse 2 carries light')
+print('TDM N=3, 5 time bins, shift=-1: the unrolled circuit addresses modes [(2,), (0, 2), (2,), (0,), (0,), (1, 0), (0,), (1,)]..., a left rotation by -1 per bin gives [(2,), (0, 2), (2,), (0,), (1,), (2, 1), (1,), (2,)]...')
 print('REPLAY-VIOLATION')
 sys.exit(1)
